@@ -1404,7 +1404,14 @@ impl<D: DependencyProvider, RT: AsyncRuntime> Solver<D, RT> {
                 .as_solvable(&self.state.variable_map)
                 .map(|s| self.provider().solvable_name(s));
             if let Some(name_id) = name_id {
-                self.state.name_activity[name_id.to_usize()] += self.activity_add;
+                // The activity vector is sized when the candidates of a package are
+                // fetched, which never happens for the package of a solvable that is
+                // only named directly as a soft requirement.
+                let idx = name_id.to_usize();
+                if self.state.name_activity.len() <= idx {
+                    self.state.name_activity.resize(idx + 1, 0.0);
+                }
+                self.state.name_activity[idx] += self.activity_add;
             }
         }
 
